@@ -87,8 +87,22 @@ def generate(seed, tier, idx=0):
         case["pause_at"] = sorted(set(rng.randint(1, n_ev)
                                       for _ in range(rng.choice([1, 1, 2, 3]))))
     ref = devscommon.make_ref(case)
-    cmds = [["initialize"], ["settle"]]
-    ref.initialize()
+    cmds = []
+    if rng.random() < 0.15:
+        # an earlier, longer replication on the same simulator that was stepped
+        # and abandoned: nothing of it (e.g. a remembered end time) may leak
+        s0, w0, l0 = prog["rep"]
+        longer = [s0, w0, l0 + rng.choice([3, 10, 30])]
+        first = ["initialize", longer]
+        devscommon.ref_apply(ref, first)
+        cmds += [first, ["settle"]]
+        for _ in range(rng.randint(1, 3)):
+            if ref.can_start():
+                devscommon.ref_apply(ref, ["step"])
+                cmds += [["step"], ["settle"]]
+        case["prelude"] = True
+    cmds += [["initialize"], ["settle"]]
+    ref.initialize(list(prog["rep"]))
     for _ in range(rng.randint(1, 6)):
         if ref.run_state == "ENDED":
             break
@@ -222,12 +236,14 @@ def execute(case):
     elif ref is not None and not findings:
         full, ref_u = uninterrupted_trace(case, r)
         end = r.ref_time(ref.end)
-        late = [h for h in H if h[0] == "exe" and h[2] > end]
-        if late:
+        last_init = max([i for i, h in enumerate(H) if h[0] == "cmd"
+                         and h[2] == "initialize" and h[3] == "return"] or [0])
+        late = [h for h in H[last_init:] if h[0] == "exe" and h[2] > end]
+        if late and not findings:
             findings.append(("executed-beyond-end",
                              "handler of event %s ran at %s, after the replication "
                              "end %s" % (late[0][1], late[0][2], end)))
-        got = devscommon.executed(H)
+        got = devscommon.executed(H[last_init:])
         if r.final[0] == "ENDED" and not info.get("beyond_end"):
             d = devscommon.describe_trace_diff(got, full)
             if d is not None:
